@@ -472,3 +472,78 @@ Example gap_example :
   gap_wf g = true /\ has_ws g = true /\ forallb gap_mode [MISel; MParn] = true /\ isel_once [MISel; MParn] = true
   /\ nongap_start ($".a{}") = true.
 Proof. vm_compute. auto. Qed.
+
+(* ===================================================================================
+   Error reporting facts on the lexer model (property C15)
+   =================================================================================== *)
+
+(* characters that start no token whatever follows them *)
+Definition always_illegal (c : ascii) : bool :=
+  existsb (ch_eqb c) ["$"; "?"; "^"; "`"; "|"; "127"] || in_range 1 8 c || in_range 14 31 c.
+
+Lemma illegal_cases c : always_illegal c = true ->
+  In c ["$"; "?"; "^"; "`"; "|"; "127"; "001"; "002"; "003"; "004"; "005"; "006"; "007"; "008"; "014"; "015"; "016"; "017"; "018"; "019";
+        "020"; "021"; "022"; "023"; "024"; "025"; "026"; "027"; "028"; "029"; "030"; "031"].
+Proof. destruct c as [[] [] [] [] [] [] [] []]; cbv; intros H; try discriminate; tauto. Qed.
+
+Lemma step_illegal st c r :
+  always_illegal c = true -> gap_mode (top (ls_stack st)) = true -> step st (c :: r) = Illegal c.
+Proof.
+  intros Hc Hm. destruct st as [stk ip]. cbn [ls_stack] in *.
+  apply illegal_cases in Hc. cbn [In] in Hc.
+  destruct stk as [|m stk]; [|destruct m; try discriminate Hm];
+    repeat (destruct Hc as [<- | Hc]; [reflexivity|]); contradiction.
+Qed.
+
+(* the line reported for an illegal character after any gap is the line the gap started on plus the line feeds in the gap,
+   counted through block comments, line comments and CRLF *)
+Lemma count_nl_app a b : count_nl (a ++ b) = (count_nl a + count_nl b)%N.
+Proof. unfold count_nl. rewrite filter_app, app_length. lia. Qed.
+Lemma count_nl_none w p : forallb p w = true -> (forall c, p c = true -> N.eqb (code c) 10 = false) -> count_nl w = 0%N.
+Proof.
+  intros Hw Hp. unfold count_nl. induction w as [|c w IH]; [reflexivity|].
+  cbn [forallb] in Hw. apply andb_true_iff in Hw as [Hc Hw]. cbn [filter]. rewrite (Hp c Hc). now apply IH.
+Qed.
+Lemma item_lines_count i : (match i with
+                             | GBlank w => forallb is_blank w = true
+                             | GLine b => forallb not_lf b = true
+                             | _ => True end) -> item_lines i = count_nl (render_item i).
+Proof.
+  destruct i as [w|w|b|b]; cbn [item_lines render_item]; intros H; try reflexivity; symmetry.
+  - apply (count_nl_none w is_blank); [assumption|]. intros c Hc. apply blank_cases in Hc as [ -> | [ -> | [ -> | -> ] ] ]; reflexivity.
+  - apply (count_nl_none ("/" :: "/" :: b) not_lf); [cbn [forallb]; now rewrite H|].
+    intros c Hc. unfold not_lf in Hc. now apply negb_true_iff in Hc.
+Qed.
+Lemma gap_lines_count : forall g, gap_wf g = true -> gap_lines g = count_nl (render_gap g).
+Proof.
+  induction g as [|i g IH]; intros Hw; [reflexivity|].
+  cbn [render_gap flat_map gap_lines]. change (flat_map render_item g) with (render_gap g). rewrite count_nl_app.
+  assert (gap_wf g = true /\ item_lines i = count_nl (render_item i)) as [Hg ->].
+  { destruct i as [w|w|b|b]; cbn [gap_wf] in Hw; repeat (apply andb_true_iff in Hw as [Hw ?]); (split; [assumption|]); apply item_lines_count; auto. }
+  now rewrite IH.
+Qed.
+
+Theorem illegal_after_gap : forall g stk ip line c rest n,
+  gap_wf g = true -> forallb gap_mode stk = true -> always_illegal c = true ->
+  lex_run (List.length g + S n) (LS stk ip) line (render_gap g ++ c :: rest)
+  = lprepend (gap_raw stk line g) (LIllegal [] c (line + count_nl (render_gap g))).
+Proof.
+  intros g stk ip line c rest n Hw Hs Hc.
+  rewrite gap_raw_lex; try assumption.
+  - cbn [lex_run]. rewrite step_illegal; [now rewrite gap_lines_count | exact Hc |].
+    cbn [ls_stack]. apply gap_mode_top. clear - Hs. revert stk Hs.
+    induction g as [|i g IH]; intros stk Hs; [exact Hs|]. cbn [gap_stack]. destruct (is_ws_item i); apply IH; auto using gap_mode_pop_isel.
+  - apply illegal_cases in Hc. cbn [In] in Hc. repeat (destruct Hc as [<- | Hc]; [reflexivity|]). contradiction.
+Qed.
+
+(* a plain string token spanning several lines advances the line counter by the line feeds it contains *)
+Lemma step_string_init stk ip q body rest :
+  top stk = MInit -> (q = """" \/ q = "'") -> forallb (fun c => negb (ch_eqb c q || ch_eqb c "@")) body = true ->
+  step (LS stk ip) (q :: body ++ q :: rest) = Emit ($"css_string", q :: body ++ [q]) (LS stk ip) (count_nl (q :: body ++ [q])) rest.
+Proof.
+  intros Ht Hq Hb.
+  assert (Hs : span (fun c => negb (ch_eqb c q || ch_eqb c "@")) (body ++ q :: rest) = (body, q :: rest)).
+  { apply span_app; [exact Hb|]. cbn. destruct Hq as [-> | ->]; reflexivity. }
+  unfold step. cbn [ls_stack]. rewrite Ht.
+  destruct Hq as [-> | ->]; cbn; rewrite Hs; cbn; reflexivity.
+Qed.
